@@ -208,6 +208,14 @@ class SSeq(SV):
         self.ety, self.arr, self.n = ety, arr, n
 
 
+class SGen(SV):
+    """the items a generator function under contract yields, as stated by its postcondition: n items, component k of item
+    j is arrays[k][j] (only consumed by for-loops and list())"""
+
+    def __init__(self, n, arrays, tys, qualname):
+        self.n, self.arrays, self.tys, self.qualname = n, arrays, tys, qualname
+
+
 class SIterView(SV):
     """d.items()/d.keys()/d.values() of a heap dict (only consumed by comprehensions/loops)"""
 
